@@ -70,7 +70,8 @@ func envHeader(ts []*target) string {
 
 // observation of one call
 type obs struct {
-	Kind    string // ok err panic timeout
+	Kind    string // ok err panic | timeout fatal memory | skipped
+	Term    string // Coq term of the message (from the worker)
 	Err     string
 	Panic   string
 	Site    string // first j5 frame of a panic
@@ -102,63 +103,69 @@ func panicClass(p string) string {
 	return p
 }
 
-const callDeadline = 60 * time.Second
-
-func guarded(f func() (protoreflect.Message, error)) obs {
-	done := make(chan obs, 1)
+// inProcess runs one call with recover(); used only inside the worker child process.
+func inProcess(f func() (protoreflect.Message, error)) (o obs) {
 	start := time.Now()
-	go func() {
-		var o obs
-		defer func() {
-			if r := recover(); r != nil {
-				o = obs{Kind: "panic", Panic: fmt.Sprint(r), Site: panicSite(string(debug.Stack()))}
-			}
-			o.Elapsed = time.Since(start)
-			done <- o
-		}()
-		m, err := f()
-		if err != nil {
-			o = obs{Kind: "err", Err: err.Error()}
-		} else {
-			o = obs{Kind: "ok", Msg: m}
+	defer func() {
+		if r := recover(); r != nil {
+			o = obs{Kind: "panic", Panic: fmt.Sprint(r), Site: panicSite(string(debug.Stack()))}
 		}
+		o.Elapsed = time.Since(start)
 	}()
-	select {
-	case o := <-done:
-		return o
-	case <-time.After(callDeadline):
-		return obs{Kind: "timeout", Elapsed: callDeadline}
+	m, err := f()
+	if err != nil {
+		return obs{Kind: "err", Err: err.Error()}
 	}
+	return obs{Kind: "ok", Msg: m}
 }
 
 var theCodec = j5codec.NewCodec()
 
+// decodeJSON / decodeQuery call the implementation in the worker child process (worker.go).
+// Kinds: ok err panic, or a hard failure timeout / fatal / memory (worker killed or died; Err has
+// the detail), or skipped (the run already saw maxHard hard failures).
 func decodeJSON(t *target, doc []byte) obs {
-	return guarded(func() (protoreflect.Message, error) {
-		m := t.New()
-		err := theCodec.JSONToProto(doc, m)
-		return m, err
-	})
+	return viaWorker(t, wreq{Kind: "json", Doc: doc}, len(doc))
 }
 
 func decodeQuery(t *target, q url.Values) obs {
-	return guarded(func() (protoreflect.Message, error) {
-		m := t.New()
-		err := theCodec.QueryToProto(q, m)
-		return m, err
-	})
+	n := 0
+	for k, vs := range q {
+		n += len(k)
+		for _, v := range vs {
+			n += len(v)
+		}
+	}
+	return viaWorker(t, wreq{Kind: "query", Query: packQuery(q)}, n)
 }
+
+// term is the Coq term of the decoded message.
+func (o obs) term() string {
+	if o.Term != "" || o.Msg == nil {
+		return o.Term
+	}
+	return codecgen.MsgTerm(o.Msg)
+}
+
+// hard: the call did not come back (hang, fatal runtime error, memory); never a model case.
+func (o obs) hard() bool { return o.Kind == "timeout" || o.Kind == "fatal" || o.Kind == "memory" }
+
+// usable: the call came back with an ordinary observation.
+func (o obs) usable() bool { return o.Kind == "ok" || o.Kind == "err" || o.Kind == "panic" }
 
 func (o obs) Coq() string {
 	switch o.Kind {
 	case "ok":
+		if o.Term != "" {
+			return "(ObsOk " + o.Term + ")"
+		}
 		return "(ObsOk " + codecgen.MsgTerm(o.Msg) + ")"
 	case "err":
 		return "ObsErr"
 	case "panic":
 		return "ObsPanic"
 	}
-	return "ObsErr"
+	panic("no Coq observation for a call that did not return: " + o.Kind)
 }
 
 // decCase renders a CDec case term.
